@@ -20,8 +20,6 @@ CONFIGS = {
     'portable': ['-std=c++17', '-DFIXEDMATH_ENABLE_SQRT_ABACUS_ALGO', '-DFIXEDMATH_VERIF_PORTABLE_MULTIPLY'],
 }
 CBMC_CHECKS = ['--signed-overflow-check', '--undefined-shift-check', '--div-by-zero-check',
-               '--bounds-check', '--pointer-check', '--float-overflow-check', '--nan-check']
-CBMC_CHECKS = ['--signed-overflow-check', '--undefined-shift-check', '--div-by-zero-check',
                '--bounds-check', '--pointer-check']
 BACKENDS = {
     'sat': [],
